@@ -60,6 +60,9 @@ pub fn install_panic_hook() {
         if loc.starts_with("src/") && !loc.starts_with("src/compile.rs") {
             eprintln!("HARNESS PANIC at {:?}: {}", info.location(), msg);
         }
+        if std::env::var("VERIF_PANIC_LINES").is_ok() {
+            eprintln!("PANIC-LOCATION {:?}: {}", info.location(), msg);
+        }
         LAST_PANIC.with(|p| *p.borrow_mut() = Some(format!("{}: {}", loc, normalise_panic(&msg))));
     }));
 }
